@@ -24,6 +24,9 @@ pub struct VecCodec;
 
 impl Sub for VecCodec {
     type Case = VecCase;
+    fn restrictable(&self) -> bool {
+        true
+    }
     fn name(&self) -> &'static str {
         "compress_vector"
     }
@@ -138,6 +141,9 @@ pub fn check_string_opt(x: &[u8], n: usize, st: &mut Stats, repeat: bool) -> Res
 
 impl Sub for StrCodec {
     type Case = StrCase;
+    fn restrictable(&self) -> bool {
+        true
+    }
     fn name(&self) -> &'static str {
         "decompress_string"
     }
@@ -172,6 +178,9 @@ pub struct StrBlock;
 
 impl Sub for StrBlock {
     type Case = BlockCase;
+    fn restrictable(&self) -> bool {
+        true
+    }
     fn name(&self) -> &'static str {
         "decompress_all_strings"
     }
